@@ -218,6 +218,26 @@ def main(tier, only_replay=None):
             sig = {"devs": "none", "matches_impl": "no", "what": "pasted lines leave an open parenthesis"}
             chk.violation("the lines written in place are rejected by the scan stage (%r) but the same lines pasted from a macro are accepted (%s) | macro form:\n%s" % (
                 a["err"]["msg"], nm, mcr), {"kind": "paste_pair", "name": nm, "inlined": inl, "macro_form": mcr, "signature": sig}, sig)
+    # 5a. where a directive lands is where the catalog shows it: children of the LATER of two sibling directives of one kind
+    #     and one name (two responses with one code, written directly / in parentheses / through PASTE)
+    for k, (form, text) in enumerate([
+            ("direct", 'JSIGHT 0.3\nGET /zsame\n  200 any // first\n  200 // second\n    Headers\n    {\n      "zh": "v"\n    }\n    Body\n    {\n      "zb": 1\n    }\n'),
+            ("parens", 'JSIGHT 0.3\nGET /zsame\n  404 regex // first\n    /a/\n  404 // second\n  (\n    Headers\n    {\n      "zh": "v"\n    }\n    Body any\n  )\n'),
+            ("paste", 'JSIGHT 0.3\nMACRO @zhb\n(\n  Headers\n  {\n    "zh": "v"\n  }\n  Body any\n)\nGET /zsame\n  201 empty // first\n  201 // second\n    PASTE @zhb\n')]):
+        o = harness("run", [{"id": "sc", "files": {"main.jst": b64(text)}, "root": "main.jst"}])["sc"]
+        chk.evaluations += 1
+        chk.traces += 1
+        chk.nontrivial.add("same_code:" + form)
+        bad = None
+        if o["outcome"] != "ok":
+            bad = "two responses with one code, the second with Headers and Body of its own (%s): %s" % (form, o["outcome"] + " " + str((o.get("err") or {}).get("msg")))
+        else:
+            rs = json.loads(o["json"])["interactions"]["http GET /zsame"]["responses"]
+            if len(rs) != 2 or "headers" in rs[0] or "headers" not in rs[1] or rs[0].get("annotation") != "first":
+                bad = "the Headers written under the second response (%s) are shown under %s" % (form, [("headers" in r) for r in rs])
+        if bad:
+            sig = {"devs": "none", "matches_impl": "no", "what": "catalog shows a directive under another parent"}
+            chk.violation(bad + " | document:\n" + text, {"kind": "same_code", "file": text, "signature": sig}, sig)
     # 6. a block that ends a context at the scan stage ends it at the expansion stage too: the directive written after a
     #    MACRO block (MACRO stands at top level only) has the same parent in both forests
     for k, (head, follower) in enumerate([("URL /zmb\n  GET\n    200 any\n", "POST\n  200 any\n"), ("URL /zmb\n  GET\n    200 any\n", "Tags @zt\n"),
@@ -249,6 +269,13 @@ def main(tier, only_replay=None):
 def replay(path):
     rp = json.load(open(path))["replay"]
     chk = Check("C06", "quick")
+    if rp.get("kind") == "same_code":
+        o = harness("run", [{"id": "sc", "files": {"main.jst": b64(rp["file"])}, "root": "main.jst"}])["sc"]
+        chk.evaluations = 1
+        rs = json.loads(o["json"])["interactions"]["http GET /zsame"]["responses"] if o["outcome"] == "ok" else []
+        if o["outcome"] != "ok" or len(rs) != 2 or "headers" in rs[0] or "headers" not in rs[1]:
+            chk.violation("reproduced", rp, rp.get("signature"))
+        return chk.finish()
     if rp.get("kind") == "macro_block":
         o = harness("run", [{"id": "mb", "files": {"main.jst": b64(rp["file"])}, "root": "main.jst", "want": ["forest", "pastes"]}])["mb"]
         chk.evaluations = 1
